@@ -138,6 +138,8 @@ def generic(prop, plan_q, plan_t, n_q, n_t, observers=(), versions=(6, 7), pre=N
     def fn(res, tier, seed, t_end, bad):
         if pre:
             pre(res, tier, seed, t_end, bad)
+            if res.findings:
+                return
         plan = plan_q if tier == 'quick' else plan_t
         Cp.run_campaign(res, prop, plan, budget(tier, n_q, n_t), seed, PROPS[prop]['scope'], observers, versions, deadline=t_end)
     return fn
@@ -344,7 +346,7 @@ def wrongtype_matrix(res, tier, seed, t_end):
 def run_C08(res, tier, seed, t_end, bad):
     obs = OBSERVERS['C08']
     allf = [f for f in gen.FAMILY if f not in ('pubsub',)]
-    Cp.run_campaign(res, 'C08', Cp.plan_single(allf, 60, mutate=0.35), budget(tier, 50, 800), seed, None, obs, deadline=t_end)
+    Cp.run_campaign(res, 'C08', Cp.with_watcher(Cp.plan_single(allf, 60, mutate=0.35)), budget(tier, 50, 800), seed, None, obs, deadline=t_end)
     Cp.run_campaign(res, 'C08', Cp.plan_multi(['tx', 'str', 'list', 'set', 'zset', 'hash', 'server', 'pubsub'], 60, mutate=0.3), budget(tier, 15, 300),
                     seed + 1, None, obs, deadline=t_end)
     if not res.findings:
@@ -488,7 +490,11 @@ def binary_roundtrip(res, tier, seed, t_end):
             ([b'sadd', key, mem], None), ([b'smembers', key], [mem]), ([b'del', key], None),
             ([b'zadd', key, b'1', mem], None), ([b'zrange', key, b'0', b'-1'], [mem]), ([b'del', key], None),
             ([b'multi'], None), ([b'set', key, val], None), ([b'get', key], None), ([b'exec'], [b'OK', val]),
-            ([b'keys', b'*'], [key]), ([b'echo', val], val),
+            ([b'keys', b'*'], [key]), ([b'echo', val], val), ([b'del', key], None),
+            ([b'rpush', key, b'x', val, b''], None), ([b'brpoplpush', key, key + b'2', b'1'], b''), ([b'brpop', key, b'1'], [key, val]),
+            ([b'lrange', key + b'2', b'0', b'-1'], [b'']), ([b'del', key, key + b'2'], None),
+            ([b'zadd', key, b'0', b''], None), ([b'zrange', key, b'0', b'-1'], [b'']), ([b'hset', key + b'h', b'', b''], None),
+            ([b'hgetall', key + b'h'], [b'', b'']), ([b'del', key, key + b'h'], None),
         ]
         try:
             s.step(('open', 1)); s.step(('open', 2))
@@ -854,11 +860,13 @@ RUNNERS = {
     'C02': generic('C02', Cp.plan_single(['list', 'hash', 'set', 'sort', 'key'], 60), Cp.plan_single(['list', 'hash', 'set', 'sort', 'key'], 80), 60, 1200),
     'C03': generic('C03', Cp.plan_single(['zset', 'zset', 'set', 'key'], 60), Cp.plan_single(['zset', 'zset', 'set', 'key'], 80), 60, 1200, OBSERVERS['C03']),
     'C04': run_C04,
-    'C05': generic('C05', Cp.plan_multi(['tx', 'str', 'list', 'set', 'server', 'key', 'ttl', 'zset'], 70, weights=[5, 2, 2, 1, 1, 1, 1, 1]),
-                   Cp.plan_multi(['tx', 'str', 'list', 'set', 'server', 'key', 'ttl', 'zset'], 90, weights=[5, 2, 2, 1, 1, 1, 1, 1]), 40, 800),
-    'C06': generic('C06', Cp.plan_multi(['tx', 'str', 'list', 'set', 'hash', 'zset', 'server', 'key'], 70, churn=False, weights=[6, 2, 2, 2, 1, 1, 2, 2]),
-                   Cp.plan_multi(['tx', 'str', 'list', 'set', 'hash', 'zset', 'server', 'key', 'ttl'], 90, churn=True, weights=[6, 2, 2, 2, 1, 1, 2, 2, 1]),
-                   40, 800, OBSERVERS['C06']),
+    'C05': generic('C05', pre=lambda res, tier, seed, t_end, bad: __import__('scenarios').run(res, 'C05', tier, seed, t_end, ()),
+                   plan_q=Cp.plan_multi(['tx', 'str', 'list', 'set', 'server', 'key', 'ttl', 'zset'], 70, weights=[5, 2, 2, 1, 1, 1, 1, 1]),
+                   plan_t=Cp.plan_multi(['tx', 'str', 'list', 'set', 'server', 'key', 'ttl', 'zset'], 90, weights=[5, 2, 2, 1, 1, 1, 1, 1]), n_q=40, n_t=800),
+    'C06': generic('C06', pre=lambda res, tier, seed, t_end, bad: __import__('scenarios').run(res, 'C06', tier, seed, t_end, OBSERVERS['C06']),
+                   plan_q=Cp.plan_multi(['tx', 'str', 'list', 'set', 'hash', 'zset', 'server', 'key'], 70, churn=False, weights=[6, 2, 2, 2, 1, 1, 2, 2]),
+                   plan_t=Cp.plan_multi(['tx', 'str', 'list', 'set', 'hash', 'zset', 'server', 'key', 'ttl'], 90, churn=True, weights=[6, 2, 2, 2, 1, 1, 2, 2, 1]),
+                   n_q=40, n_t=800, observers=OBSERVERS['C06']),
     'C07': run_C07,
     'C08': run_C08,
     'C09': generic('C09', plan_removal(60), plan_removal(90), 30, 500, OBSERVERS['C09']),
